@@ -27,3 +27,15 @@ Definition hx (s : string) : bytes := hx_go s None.
 
 Fixpoint ascii_bytes (s : string) : bytes :=
   match s with EmptyString => [] | String c s' => N_of_ascii c :: ascii_bytes s' end.
+
+Definition str := ascii_bytes.
+
+Definition hexdigit (n : N) : ascii :=
+  ascii_of_N (if n <? 10 then 48 + n else 87 + n).
+
+(* printing: [10; 255] -> "0aff" *)
+Fixpoint to_hex (b : bytes) : string :=
+  match b with
+  | [] => EmptyString
+  | x :: r => String (hexdigit (x / 16 mod 16)) (String (hexdigit (x mod 16)) (to_hex r))
+  end.
